@@ -140,6 +140,24 @@ func strFormat(L *LState) int {
 	for i := 2; i <= top; i++ {
 		args[i-2] = L.Get(i)
 	}
+	// the argument of a numeric conversion is a number or a string that converts to one (luaL_checknumber)
+	narg := 1
+	for i := 0; i < len(str); i++ {
+		if str[i] != '%' {
+			continue
+		}
+		i++
+		if i < len(str) && str[i] == '%' {
+			continue
+		}
+		for i < len(str) && strings.IndexByte("-+ #0123456789.", str[i]) >= 0 {
+			i++
+		}
+		narg++
+		if i < len(str) && strings.IndexByte("diouxXceEfgG", str[i]) >= 0 {
+			L.CheckNumber(narg)
+		}
+	}
 	// a "%%" is two '%' characters and consumes no argument
 	npat := strings.Count(str, "%") - 2*strings.Count(str, "%%")
 	L.Push(LString(fmt.Sprintf(str, args[:intMin(npat, len(args))]...)))
